@@ -277,17 +277,20 @@ def joint_reductions(ctx, label, smp, base, extras, tm, fail, post=None, gate_ma
     masses add up (n particles of mass Z have mass n Z), max -> the largest one.
     `fail(name, problem, expected, got)` reports.  Returns False after a failure."""
     names = [n for n, _ in extras]
-    subsets = [X for m in range(1, len(names) + 1) for X in itertools.combinations(names, m)]
+    present = [n for n in names if n in smp.inputs]
+    subsets = [X for m in range(1, len(present) + 1) for X in itertools.combinations(present, m)]
     if len(subsets) > max_subsets:
-        keep = [tuple(names)] + [(n,) for n in names[:2]]
+        keep = [tuple(present)] + [(n,) for n in present[:2]]
         rest = [X for X in subsets if X not in keep]
         ctx.rng.shuffle(rest)
         subsets = (keep + rest)[:max_subsets]
     for X in subsets:
         rest_order = [(n, k) for n, k in extras if n not in X]
         axes = tuple(i for i, n in enumerate(names) if n in X)
-        for op, opname, brute in ((ops.logaddexp, "logaddexp", lse(tm, axes)),
-                                  (ops.max, "max", np.max(tm, axis=axes))):
+        todo = [(ops.logaddexp, "logaddexp", lse(tm, axes))]
+        if X == subsets[0]:
+            todo.append((ops.max, "max", np.max(tm, axis=axes)))
+        for op, opname, brute in todo:
             try:
                 with np.errstate(all="ignore"):
                     r = smp.reduce(op, frozenset(base) | frozenset(X))
@@ -620,6 +623,18 @@ else:
         if wrow.sum() > 0 and ((row > 0).sum() != 1 or (wrow[row > 0] <= 0).any()):
             problems.append("point at %s: cells with mass %s, their original weights %s"
                             % (idx, np.argwhere(row > 0).tolist(), wrow[row > 0].tolist()))
+    import funsor.ops as ops
+    extra = [n for n, _ in eff] + batch
+    for m in range(1, len(extra) + 1):
+        for X in itertools.combinations(extra, m):
+            with np.errstate(all="ignore"):
+                one = s.reduce(ops.logaddexp, frozenset(event) | frozenset(X))
+                keep = [n for n in extra if n not in X]
+                got = np.exp(np.asarray(one.align(tuple(keep)).data if keep else one.data, dtype=np.float64))
+            want = D.sum(axis=tuple(i for i, n in enumerate(names) if n in X or n in event))
+            if not np.allclose(got, want, rtol=1e-7):
+                problems.append("sample.reduce(logaddexp, sampled + %s) in one call: %s, sum of the per-slice masses %s"
+                                % (list(X), got.tolist(), want.tolist()))
     if LAW and len(eff) == 1:
         M = eff[0][1]
         freq = (D > 0).sum(0)
@@ -787,7 +802,7 @@ def check_sample_case(ctx, c, use_driver=True, gate_model=False):
             return
         if d["order"] and not joint_reductions(
                 ctx, "tensor", s, c["sampled"], d["order"], t1,
-                lambda nm, prob, exp_, got_: bad(nm, prob, expected=exp_, got=got_), gate_max=True):
+                lambda nm, prob, exp_, got_: bad(nm, prob, expected=exp_, got=got_), gate_max=True, max_subsets=3):
             return
     else:
         ctx.count("sample:reduce-lazy")
@@ -909,7 +924,7 @@ def rounding_stream(ctx, use_driver=True):
     inputs, uniforms exactly 0.0 and in the top ulps of [0,1): out-of-range index / wrap-around /
     trailing zero cell must not be selected."""
     rng = ctx.rng
-    n = 60 if ctx.tier == "quick" else 1200
+    n = 40 if ctx.tier == "quick" else 1200
     for _ in range(n):
         sizes = rng.choice([[4], [4], [3, 4], [4, 4], [4, 4, 3], [4, 4, 4], [2, 4]])
         k = len(sizes)
@@ -948,6 +963,8 @@ def sample_streams(ctx, use_driver=True):
             for m in range(1, k + 1):
                 for sub in itertools.combinations(range(k), m):
                     for _ in range(reps):
+                        if ctx.tier == "quick" and k == 3 and rng.random() < 0.5:
+                            continue        # quick tier: every 1-2 input shape, half of the 3-input ones
                         c = gen_sample_case(rng, sizes=list(sizes), sampled=list(sub))
                         check_sample_case(ctx, c, use_driver=use_driver)
     n = 100 if ctx.tier == "quick" else 3000
@@ -1590,7 +1607,7 @@ def delta_streams(ctx, use_driver=True):
         delta_eval_case(ctx, gen_delta_case(rng), use_driver=use_driver)
     for _ in range(n):
         delta_reduce_case(ctx, use_driver=use_driver)
-    for _ in range(150 if ctx.tier == "quick" else 1500):
+    for _ in range(110 if ctx.tier == "quick" else 1500):
         delta_multi_case(ctx, use_driver=use_driver)
     for _ in range(80 if ctx.tier == "quick" else 1000):
         delta_joint_case(ctx)
@@ -2602,7 +2619,7 @@ def radix_box(ctx):
 def correspond(ctx):
     ctx.rule = (
         "Tensor.sample: every shape over 1-3 inputs of sizes 1-4 x every non-empty subset of sampled variables "
-        "(thorough: 8 data draws each) + random cases; weights in {0,1/4,1/2,1,2,3,4} (0 = -inf logit) incl. {0,1} "
+        "(thorough: 8 data draws each; quick: all 1-2 input shapes, half of the 3-input ones) + random cases; weights in {0,1/4,1/2,1,2,3,4} (0 = -inf logit) incl. {0,1} "
         "tensors and all-zero rows; 0-2 sample inputs (sizes 1-3, sometimes named like an existing input); uniforms "
         "chosen by the harness through a stub of numpy.random.rand, over its whole range [0,1): exactly 0.0, 2^-60, "
         "0.5, 1-k*2^-53 (k=1..8), a coarse grid, exact CDF boundaries (dyadic rows), boundary +-1e-6/1e-4, seeded "
